@@ -309,6 +309,11 @@ func scenarios(tier string) []*vsched.Scenario {
 	}
 	if tier == "thorough" {
 		out = append(out, handlerScenario(1, 3, 2, 2), actorScenario(1, 3, 2, 2), handlerScenario(0, 4, 1, 2), actorScenario(0, 4, 1, 2))
+		// deeper: bound 4 on the two-sender shapes, more senders / messages under bound 2, delay bound 3 with 6 senders
+		for _, c := range caps {
+			out = append(out, handlerScenario(c, 2, 2, 4), actorScenario(c, 2, 2, 4), handlerScenario(c, 2, 3, 2), actorScenario(c, 2, 3, 2),
+				handlerScenario(c, 5, 1, 2), actorScenario(c, 5, 1, 2))
+		}
 	}
 	out = append(out, spawnScenario(false, b), spawnScenario(true, b))
 	for _, c := range []string{"Handler.New", "Handler.NewByCh", "Actor.New", "Actor.NewByOptions", "ActorNewGenerics", "ActorNewByOptionsGenerics"} {
